@@ -58,7 +58,9 @@ CanAct(cfg, s, t, b) == /\ s.open[b] = DNone /\ t >= s.tPre[b] + cfg.tm.rp /\ t 
                         /\ t >= s.aAny + cfg.tm.rrd
 CanCas(cfg, s, t, b, isRd) == /\ s.open[b] # DNone /\ t >= s.tAct[b] + cfg.tm.rcd /\ t >= s.cAny + cfg.tm.ccd
                               /\ (isRd => t >= s.wAny + cfg.tm.wtr) /\ (~isRd => t >= s.rAny + cfg.tm.rtw)
-CanPre(cfg, s, t, b) == s.open[b] = DNone \/ (t >= s.tAct[b] + cfg.tm.ras /\ t >= s.tWr[b] + cfg.tm.wr /\ t >= s.tRd[b] + cfg.tm.rtp)
+\* write recovery / read-to-precharge also bind a PRE sent to a bank that is closing through auto-precharge
+CanPre(cfg, s, t, b) == /\ t >= s.tWr[b] + cfg.tm.wr /\ t >= s.tRd[b] + cfg.tm.rtp
+                        /\ (s.open[b] = DNone \/ t >= s.tAct[b] + cfg.tm.ras)
 
 \* ---- effect of commands on the bank/clock state (contents are handled in DStep) ----
 DoAct(s, t, b, row) == [s EXCEPT !.open[b] = row, !.tAct[b] = t, !.aAny = t, !.nAct = @ + 1]
